@@ -65,16 +65,16 @@ var ReqFactors = []string{"method", "proto", "host", "upgrade", "connection", "v
 
 // ReqVariants lists the variants of each factor; the first is canonical.
 var ReqVariants = map[string][]string{
-	"method":     {"GET", "get", "POST", "HEAD", "PUT", "OPTIONS", "GETT"},
-	"proto":      {"HTTP/1.1", "HTTP/1.0", "HTTP/1.2", "HTTP/1.9", "HTTP/1.10", "HTTP/2.0", "HTTP/0.9", "HTTP/1.:", "HTTP/1.;", "HTTP/1.1x", "HTTP/1.18446744073709551617", "missing", "HTTP/1.01", "http/1.1", "HTTP/1.", "HTTP/.1", "HTTP/11",
+	"method": {"GET", "get", "POST", "HEAD", "PUT", "OPTIONS", "GETT"},
+	"proto": {"HTTP/1.1", "HTTP/1.0", "HTTP/1.2", "HTTP/1.9", "HTTP/1.10", "HTTP/2.0", "HTTP/0.9", "HTTP/1.:", "HTTP/1.;", "HTTP/1.1x", "HTTP/1.18446744073709551617", "missing", "HTTP/1.01", "http/1.1", "HTTP/1.", "HTTP/.1", "HTTP/11",
 		// number spellings that a general-purpose integer parser takes but an HTTP version does not have
 		"HTTP/1.+1", "HTTP/+1.1", "HTTP/1.-1", "HTTP/-1.1", "HTTP/1.1e0", "HTTP/0x1.1", "HTTP/1_0.1", "HTTP/1.١"},
 	"host":       {"canonical", "absent", "case-name", "blanks", "empty", "dup-same", "with-port"},
-	"upgrade":    {"canonical", "absent", "case-name", "case-value", "blanks", "wrong", "empty", "dup-same", "dup-diff", "token-list", "prefix", "suffix"},
-	"connection": {"canonical", "absent", "case-name", "case-value", "blanks", "wrong", "empty", "dup-same", "dup-diff", "list-first", "list-middle", "list-last", "list-nospace", "substring", "list-tab"},
-	"version":    {"canonical", "absent", "case-name", "blanks", "wrong-12", "wrong-8", "wrong-130", "empty", "dup-same", "dup-diff", "list"},
-	"key":        {"canonical", "absent", "case-name", "blanks", "len23", "len25", "nonbase64-24", "decodes-17", "decodes-18", "empty", "dup-same", "dup-diff", "len16raw", "cr-inside", "cr-cr-tail"},
-	"extra":      {"none", "some", "long-value", "many", "no-colon-line", "empty-name"},
+	"upgrade":    {"canonical", "absent", "case-name", "case-value", "blanks", "wrong", "empty", "dup-same", "dup-diff", "token-list", "prefix", "suffix", "cr-tail"},
+	"connection": {"canonical", "absent", "case-name", "case-value", "blanks", "wrong", "empty", "dup-same", "dup-diff", "list-first", "list-middle", "list-last", "list-nospace", "substring", "list-tab", "cr-tail"},
+	"version":    {"canonical", "absent", "case-name", "blanks", "wrong-12", "wrong-8", "wrong-130", "empty", "dup-same", "dup-diff", "list", "cr-tail"},
+	"key":        {"canonical", "absent", "case-name", "blanks", "len23", "len25", "nonbase64-24", "decodes-17", "decodes-18", "empty", "dup-same", "dup-diff", "len16raw", "cr-inside", "cr-cr-tail", "cr-tail"},
+	"extra":      {"none", "some", "long-value", "many", "no-colon-line", "empty-name", "cr-only-line"},
 	"eol":        {"crlf", "lf"},
 }
 
@@ -197,6 +197,17 @@ func BuildReq(rng *rand.Rand, choice map[string]string, protoHdrs, extHdrs []str
 			v.MarkOpen("duplicated " + name + " with different validity")
 		}
 	}
+	// crTail: a correct value followed by one bare CR before the line end. Under
+	// CRLF line ends the value then ends in a CR, which is neither a blank nor part of
+	// the expected value; under LF line ends "value CR LF" is an ordinary CRLF line.
+	crTail := func(name, good string, statuses ...int) {
+		add(name, " "+good+"\r")
+		if r.EOL == "\n" {
+			v.MarkOpen(name + " line ending in CRLF among LF line ends")
+		} else {
+			v.Reject(name+" value ending in a bare CR", statuses...)
+		}
+	}
 	hostVal := "example.com"
 	switch c := get("host"); c {
 	case "with-port":
@@ -214,6 +225,8 @@ func BuildReq(rng *rand.Rand, choice map[string]string, protoHdrs, extHdrs []str
 	case "suffix":
 		add("Upgrade", " websocket/13")
 		v.Reject("Upgrade wrong value", 400)
+	case "cr-tail":
+		crTail("Upgrade", "websocket", 400)
 	default:
 		mand("upgrade", "Upgrade", "websocket", 400)
 	}
@@ -234,6 +247,10 @@ func BuildReq(rng *rand.Rand, choice map[string]string, protoHdrs, extHdrs []str
 	case "substring":
 		add("Connection", " keep-alive, upgrades")
 		v.Reject("Connection lacks the upgrade token", 400)
+	case "cr-tail":
+		// (what a token list ending in a bare CR contains is the list tokenizer's call)
+		add("Connection", " Upgrade\r")
+		v.MarkOpen("Connection list ending in a bare CR")
 	default:
 		mand("connection", "Connection", "Upgrade", 400)
 	}
@@ -253,6 +270,8 @@ func BuildReq(rng *rand.Rand, choice map[string]string, protoHdrs, extHdrs []str
 	case "wrong":
 		add("Sec-WebSocket-Version", " 13x")
 		v.Reject("version 13x", 426)
+	case "cr-tail":
+		crTail("Sec-WebSocket-Version", "13", 426, 400)
 	default:
 		mand("version", "Sec-WebSocket-Version", "13", 426)
 	}
@@ -300,6 +319,9 @@ func BuildReq(rng *rand.Rand, choice map[string]string, protoHdrs, extHdrs []str
 		add(keyHdr, " "+key[:8]+"\r"+key[8:]+"\r\r")
 		r.Key = ""
 		v.Reject("key with three bare CRs", 400)
+	case "cr-tail":
+		crTail(keyHdr, key, 400)
+		r.Key = ""
 	case "len16raw":
 		add(keyHdr, " 0123456789abcdef")
 		v.Reject("16-char key", 400)
@@ -350,6 +372,14 @@ func BuildReq(rng *rand.Rand, choice map[string]string, protoHdrs, extHdrs []str
 	case "no-colon-line":
 		r.Headers = append(r.Headers, Hdr{Raw: "this line has no colon"})
 		v.Reject("header line without colon", 400)
+	case "cr-only-line":
+		// a line holding one bare CR: with CRLF line ends that is a (malformed) header
+		// line, not the blank line that ends the head; with LF line ends it IS a blank line
+		// (and would cut the head short: not generated there)
+		if r.EOL != "\n" {
+			r.Headers = append(r.Headers, Hdr{Raw: "\r"})
+			v.Reject("header line holding only a bare CR", 400)
+		}
 	case "empty-name":
 		r.Headers = append(r.Headers, Hdr{Raw: ": value-without-name"})
 		v.MarkOpen("header with empty name")
